@@ -116,6 +116,32 @@ int main(int argc, char **argv)
     size_t maxbuf = do_long ? 65537 : (size_t)(maxlen < 64 ? 64 : maxlen);
     uint8_t *ad = malloc(maxbuf + 1), *m = malloc(maxbuf + 1);
     int kl = ref_keylen(alg);
+    if (!strcmp(pat, "chunks")) {
+        /* chunk sizes of the incremental calls around the widths of small counters: a first chunk of p bytes leaves a partial block, then one chunk of L bytes
+         * with p + L around 256, 512, 768, 65536 (and small), then a tail; encryption and decryption, against the one-shot specification */
+        static const size_t base[] = {0, 256, 512, 768, 1024, 65536, 131072};
+        size_t cap = 131072 + 64; uint8_t *mm = malloc(cap), *exp = malloc(cap + 16), *c = malloc(cap + 16), *back = malloc(cap);
+        hx_fill(key, kl, 3, 1); hx_fill(nonce, 16, 3, 2); hx_fill(mm, cap, 3, 4); hx_fill(ad, 8, 3, 3);
+        long n = 0;
+        for (unsigned b = 0; b < (do_long ? 7 : 5); b++) for (size_t p = 0; p <= 17; p++) for (int dl = -20; dl <= 20; dl++) for (size_t tail = 0; tail <= 9; tail += 9) {
+            long L = (long)base[b] + dl - (long)p; if (L < 0 || (b == 0 && dl < 0)) continue;
+            if (b >= 5 && ((p > 1 && p < 7) || (p > 9 && p < 15) || dl < -9 || dl > 9)) continue;   /* the long ones on a thinner grid */
+            size_t mlen = p + (size_t)L + tail, adlen = (p + tail) % 8;
+            ref_aead_encrypt(alg, key, nonce, ad, adlen, mm, mlen, exp);
+            api_inc_state st;
+            api_inc_init[alg](&st, nonce, key); api_inc_start[alg](&st, ad, adlen);
+            api_inc_enc[alg](&st, mm, c, p); api_inc_enc[alg](&st, mm + p, c + p, (size_t)L); api_inc_enc[alg](&st, mm + p + L, c + p + L, tail);
+            api_inc_encfin[alg](&st, c + mlen); api_inc_free[alg](&st); n++;
+            if (memcmp(c, exp, mlen + 16)) hx_fail("encrypt:incremental-chunk-sizes", "alg=%s chunks %zu+%ld+%zu differ from the specification (adlen %zu)", api_alg_name[alg], p, L, tail, adlen);
+            api_inc_init[alg](&st, nonce, key); api_inc_start[alg](&st, ad, adlen);
+            api_inc_dec[alg](&st, exp, back, p); api_inc_dec[alg](&st, exp + p, back + p, (size_t)L); api_inc_dec[alg](&st, exp + p + L, back + p + L, tail);
+            int r = api_inc_decfin[alg](&st, exp + mlen); api_inc_free[alg](&st); n++;
+            if (r != 0 || memcmp(back, mm, mlen)) hx_fail("decrypt:incremental-chunk-sizes", "alg=%s chunks %zu+%ld+%zu: result %d / plaintext differs from the specification (adlen %zu)", api_alg_name[alg], p, L, tail, r, adlen);
+        }
+        hx_stat("evaluations", n); hx_stat("nontrivial", n);
+        hx_sample("alg=%s incremental chunk sizes p + L with p in 0..17 and p + L within 20 of 0/256/512/768/1024%s, tails 0/9 (%ld sessions)", api_alg_name[alg], do_long ? "/65536/131072" : "", n);
+        hx_finish(); return 0;
+    }
     if (strcmp(pat, "walk") != 0) {
         int p = atoi(pat);
         hx_fill(key, kl, p, 1); hx_fill(nonce, 16, p, 2); hx_fill(ad, maxbuf, p, 3); hx_fill(m, maxbuf, p, 4);
